@@ -8,6 +8,10 @@ R09.1 table identity: the 256 initialiser values of rolling_hash2_table1 equal t
       table, and _rolling_hash2_init reads table1[i] from this global only.
 R09.2 state refresh on every exit: every path of _rolling_hash2_run to its return stores *offset, stores
       state->hash and copies into state->history, so the next run resumes from exactly the window state.
+R09.4 table / stream pairing: in every scan loop t1 is indexed only by bytes of the incoming stream b1 and t2 only
+      by bytes of the outgoing stream b2.
+R09.5 every consumed byte is tested: no path of a scan loop updates the hash from the tables and then returns
+      with the index advanced past that byte without comparing (hash & mask) with the trigger.
 R09.3 no private tables: the scan loops (_rolling_hash2_run_until_{base,00,04}) read table entries only through
       their t1/t2 arguments, never from static storage.
 """
@@ -141,6 +145,103 @@ def run(chk):
                             res = f.obj.resolve_symaddr(v[1], v[2], lib)
                             if res and res[3] and "__stack_chk" not in str(res[3]):
                                 bad.append(i)
+        # R09.4 table / stream pairing: t1 (3rd arg) is indexed only by bytes read through b1 (5th arg), t2 (4th) only
+        # by bytes read through b2 (6th): h ^= t1[b1[i]] ^ t2[b2[i]]
+        pair = {"RDX": "R8", "RCX": "R9"}
+        npair = 0
+        for b in f.blocks.values():
+            for i in b:
+                if not i.reads_mem_operand() or i.addr not in r.maddr:
+                    continue
+                v = r.maddr[i.addr][0]
+                rs = absint.roots(v)
+                if not rs:
+                    continue
+                tabs = [t for t in rs if t in pair]
+                if len(tabs) != 1 or i.addr not in r.mindex:
+                    continue
+                irs = absint.roots(r.mindex[i.addr])
+                if irs is None:
+                    continue
+                streams = set()
+                for t in irs:
+                    if isinstance(t, tuple) and t[0] == "ld":
+                        streams |= {x for x in t[1] if x in ("R8", "R9")}
+                if not streams:
+                    continue
+                npair += 1
+                okp = streams == {pair[tabs[0]]}
+                chk.obligation("R09.4", okp, key=(name, i.addr), sample={"function": name, "insn": i.text.strip()})
+                if not okp:
+                    chk.finding(Finding("R09.4", f.obj.name, name, "table-stream-pairing", "`%s` indexes table %s with a byte of stream %s (t1 pairs with the incoming bytes b1, t2 with the outgoing bytes b2)" % (
+                        i.text.strip(), "t1" if tabs[0] == "RDX" else "t2", "/".join(sorted("b1" if x == "R8" else "b2" for x in streams))), loc=f.obj.line_of(f.sec, i.addr)))
+        # R09.5 every hash update is tested before the function returns past it: a forward may-analysis of
+        # "hash updated from the tables since the last compare against the trigger"
+        ipk = absint.Interp(lib, lambda t: c19.summary_of(lib, t), keep_regs=True)
+        rk = ipk.run(f)
+
+        def has_root(v, names):
+            rs = absint.roots(v)
+            if not rs:
+                return False
+            for t in rs:
+                if t in names:
+                    return True
+                if isinstance(t, tuple) and t[0] == "ld" and any(x in names for x in t[1]):
+                    return True
+            return False
+        pend_in = {f.entry: False}
+        work = [f.entry]
+        exits_pending = []
+        nupd = ntest = 0
+        while work:
+            bl = work.pop()
+            pend = pend_in[bl]
+            for i in f.blocks[bl]:
+                regs = rk.reg_at.get(i.addr, {})
+                if i.op.startswith(("XOR64", "XOR32")) and not (i.reg(1) == i.reg(2) and i.mem < 0):
+                    src_tab = False
+                    av2 = rk.maddr.get(i.addr)
+                    if av2 is not None and i.reads_mem_operand() and has_root(av2[0], ("RDX", "RCX")):
+                        src_tab = True
+                    for u in i.reg_uses_nomem():
+                        if u in x86.PARENT and has_root(ipk.val(regs, u), ()) is False:
+                            rs = absint.roots(ipk.val(regs, u))
+                            if rs and any(isinstance(t, tuple) and t[0] == "ld" and (("RDX" in t[1]) or ("RCX" in t[1])) for t in rs):
+                                src_tab = True
+                    if src_tab and not i.writes_mem_operand():
+                        # only the accumulation into the hash counts: destination must not be a fresh temporary that
+                        # is itself xored into the hash later; treat every table-derived xor as an update, the
+                        # compare that follows clears it
+                        pend = True
+                        nupd += 1
+                elif (i.op.startswith("CMP") and not i.op.startswith(("CMPXCHG", "CMPS"))) or i.op.startswith("TEST"):
+                    ops_ = [u for u in i.reg_uses_nomem() if u in x86.PARENT]
+                    vals = [ipk.val(regs, u) for u in ops_]
+                    av2 = rk.maddr.get(i.addr)
+                    # the hit test: compare with the trigger argument (9th, stack) or, in a trigger == 0 loop, `test mask, hash`
+                    want = "ARG@24" if i.op.startswith("CMP") else "ARG@16"
+                    trig = any(absint.roots(v) and want in absint.roots(v) for v in vals) or (av2 is not None and av2[0] == ("sp", 24 if want == "ARG@24" else 16))
+                    if trig:
+                        pend = False
+                        ntest += 1
+                elif i.is_ret() and pend:
+                    exits_pending.append(i)
+            for s2 in f.succ.get(bl, []):
+                if s2 not in pend_in:
+                    pend_in[s2] = pend
+                    work.append(s2)
+                elif pend and not pend_in[s2]:
+                    pend_in[s2] = True
+                    work.append(s2)
+        if nupd < 1 or ntest < 1:
+            chk.broke("%s: hash updates (%d) or trigger compares (%d) not recognised" % (name, nupd, ntest))
+        chk.obligation("R09.5", not exits_pending, key=name, sample={"function": name, "hash_updates": nupd, "trigger_tests": ntest})
+        if exits_pending:
+            i = exits_pending[0]
+            chk.finding(Finding("R09.5", f.obj.name, name, "untested-byte", "a path consumes a byte (updates the hash from the tables) and returns past it without comparing (hash & mask) with the trigger: a hit on that byte is reported one position late", loc=f.obj.line_of(f.sec, i.addr)))
+        if npair < 2:
+            chk.broke("%s: fewer than two table loads with a stream-derived index were recognised (%d)" % (name, npair))
         chk.obligation("R09.3", not bad, key=name, sample={"function": name, "instructions": f.insns})
         for i in bad[:2]:
             chk.finding(Finding("R09.3", f.obj.name, name, "static-table-load", "`%s` reads an 8-byte table entry from static storage instead of the caller-supplied tables" % i.text.strip(), loc=f.obj.line_of(f.sec, i.addr)))
